@@ -47,7 +47,7 @@ func TestVerifC16MetricsRace(t *testing.T) {
 		}
 		adders := 2 + r.Intn(7)
 		per := 300 + r.Intn(2701)
-		desc := fmt.Sprintf("case=%d;adders=%d per=%d", idx, adders, per)
+		desc := fmt.Sprintf("case=%d;adders=%d per=%d drops_only_period=%d", idx, adders, per, []int{0, 1, 1, 3, 7}[idx%5])
 		w := &c16Writer{}
 		SetReportWriter(w)
 		mt := NewMetrics(fmt.Sprintf("c16-%d", idx))
@@ -87,6 +87,17 @@ func TestVerifC16MetricsRace(t *testing.T) {
 			m.Violate("C16:metrics:hang", desc, "final Flush+Wait did not return\n%s", vk.Stacks()[:3000])
 			return
 		}
+		// a period in which everything was shed: only drops, no ordinary task; they must be reported too
+		onlyDrops := []int{0, 1, 1, 3, 7}[idx%5]
+		for i := 0; i < onlyDrops; i++ {
+			mt.AddDrop()
+		}
+		wantDrops += onlyDrops
+		if !vk.Within(30*time.Second, func() { mt.executor.Flush(); mt.executor.Wait() }) {
+			m.Violate("C16:metrics:hang", desc, "Flush+Wait after the drops-only period did not return\n%s", vk.Stacks()[:3000])
+			return
+		}
+		m.Count("drops_only_periods", 1)
 		w.mu.Lock()
 		gotReqs, gotDrops, reports, durMs := w.reqs, w.drops, w.reports, w.durMs
 		w.mu.Unlock()
